@@ -2,5 +2,6 @@
 SPECIFICATION CSpec
 CONSTANTS
   LockTip = TRUE
+  MaxCrashes = 1
 INVARIANT CInv
 CHECK_DEADLOCK FALSE
